@@ -1459,3 +1459,32 @@ package ice
 //@ func (*PostingsIterator).nextAtOrAfter
 //@   lemma[C05] rv != nil && !(i.includeLocs && hasLocs) ==> len(rv.locs) == 0
 //@   ensures[C05] @no_stale_freq_norm result1 == nil && result0 != nil && !i.includeFreqNorm ==> cast(result0, "*Posting").freq == 0 && len(cast(result0, "*Posting").locs) == 0
+//@
+//@ // ---------------------------------------------------------------------------
+//@ // C06/C10: the stored-field record. Per value the meta section holds the triple
+//@ // (field id, start offset in the data section, length), in that order; offsets are positions in
+//@ // the data section because curr advances exactly with the data appended.
+//@ func mergeStoredAndRemap$1
+//@   ghostset mlast = val
+//@   ensures[C06,C10] mlast == val
+//@ func (*interim).writeStoredFields$1
+//@   ghostset mlast = val
+//@   ensures[C06,C10] mlast == val
+//@ func encodeStoredFieldValues
+//@   param metaEncode ensures mlast == arg0
+//@   at call:funcvalue#0 lemma[C06,C10] mlast == fieldID
+//@   at call:funcvalue#1 lemma[C06,C10] mlast == curr
+//@   at call:funcvalue#2 lemma[C06,C10] mlast == len(storedFieldValues[i])
+//@   loop 0 invariant[C06,C10] 0 <= i && curr - old(curr) == len(data) - old(len(data))
+//@   ensures[C06,C10] @offsets_track_the_data_section err == nil ==> newCurr - curr == len(newData) - len(data)
+//@
+//@ // reader: three uvarints per value, in the same order; the value handed to the visitor is
+//@ // data[offset : offset+length] and the field name is looked up with the first number
+//@ ghostvar rd0 int
+//@ ghostvar rd1 int
+//@ ghostvar rd2 int
+//@ func (*Segment).visitDocument
+//@   at call:encoding/binary.ReadUvarint#0 ghostset rd0 = result0
+//@   at call:encoding/binary.ReadUvarint#1 ghostset rd1 = result0
+//@   at call:encoding/binary.ReadUvarint#2 ghostset rd2 = result0
+//@   at call:funcvalue#0 lemma[C06,C10] field == rd0 && arr(value) == arr(uncompressed) && off(value) == off(uncompressed) + rd1 && len(value) == rd2
